@@ -150,6 +150,14 @@ func (fc *FnCtx) trCall(st *State, call *ast.CallExpr) []Val {
 		return []Val{{T: "(" + sf.smtName + " " + strings.Join(args, " ") + ")", S: sortOf(rt), GT: rt}}
 	}
 	if fn.Pkg() != nil && isVerifFile(fc.pkg.Fset.Position(fn.Pos()).Filename) {
+		if fn.Name() == "assert" {
+			v := fc.tr(st, call.Args[0])
+			ord := fc.siteOrdinal("assert", call)
+			if fc.contract != nil {
+				fc.oblige(st, fmt.Sprintf("assert#%d", ord), "assert", fc.contract.Tags, v.T, "ghost assertion: "+exprString(call.Args[0]), call)
+			}
+			return nil
+		}
 		switch fn.Name() {
 		case "forall", "exists", "implies", "ite", "iteS", "byteStr", "reMatch", "reGroup", "itoa", "reMatchDyn":
 			return []Val{fc.trHelper(st, fn.Name(), call)}
@@ -305,11 +313,11 @@ func (fc *FnCtx) trConversion(st *State, call *ast.CallExpr, to types.Type) Val 
 	case ts == SSL && v.S == SSL, ts == SIL && v.S == SIL, ts == SBool && v.S == SBool:
 		v.GT = to
 		return v
-	case ts == SOpaque: // float64(...) etc
-		return Val{T: v.T, S: v.S, GT: to}
+	case ts == SOpaque: // float64(...) etc: not modelled
+		return Val{T: "0", S: SOpaque, GT: to}
 	}
-	if v.S == SOpaque && ts == SInt {
-		return Val{T: v.T, S: SInt, GT: to}
+	if v.S == SOpaque {
+		return fc.freshVal(st, "fromopaque", ts, to)
 	}
 	fc.errorf("%s: unsupported conversion %s", fc.pos(call), exprString(call))
 	return fc.freshVal(st, "conv", ts, to)
